@@ -61,6 +61,14 @@ def obligations(ctx):
                       unwind=40, family="vec_znx_normalize_base2k"))
         obs.append(Ob("coeff/range-normalize/res=%d/a=%d" % (rsz, asz), c05.H, "h_vec", {"K": 17, "NN": 2, "RSZ": rsz, "RSL": 3, "VIA": 2, "RB": 1, "RE": 1 + 2 * asz if asz else 1, "RS": 2, "BIGSZ": 6},
                       c05.LIBS, unwind=60, family="vec_znx_big_range_normalize_base2k"))
+    # new_* / delete_* pairs release what they allocate (cbmc --memory-leak-check)
+    for kind in (0, 1):
+        for (nn, avx) in ((4, 0), (8, 1), (16, 1)):
+            obs.append(core.Ob("leak/%s/N=%d/avx=%d" % ("module_fft64" if kind == 0 else "vec_znx_dft+big+svp_ppol+vmp_pmat", nn, avx), "leak.c", "h_leak",
+                               {"KIND": kind, "NN": nn, "MM": nn // 2, "AVX": avx}, ag.LIBS, unwind=200, flags=["--slice-formula", "--memory-leak-check"], inc=[t],
+                               family="new/delete pairs", timeout=600,
+                               desc="heap MODULE filled by the real fill_module_precomp and released by the real delete_module_info (plus the object allocators of the API): "
+                                    "no heap object allocated in the harness is live at its end"))
     return obs
 
 
